@@ -221,7 +221,8 @@ func ToBoolean(ctx *expr.Context, input system.Collection, args ...expr.Expressi
 	// Input reading
 	value, err := system.From(input[0])
 	if err != nil {
-		return nil, err
+		// not a System type (a complex element): not convertible
+		return system.Collection{}, nil
 	}
 	// Input conversion
 	switch value := value.(type) {
@@ -340,7 +341,8 @@ func ToDecimal(ctx *expr.Context, input system.Collection, args ...expr.Expressi
 	// Input reading
 	value, err := system.From(input[0])
 	if err != nil {
-		return nil, err
+		// not a System type (a complex element): not convertible
+		return system.Collection{}, nil
 	}
 	// Input conversion
 	switch value.(type) {
@@ -386,7 +388,8 @@ func ToInteger(ctx *expr.Context, input system.Collection, args ...expr.Expressi
 	// Input reading
 	value, err := system.From(input[0])
 	if err != nil {
-		return nil, err
+		// not a System type (a complex element): not convertible
+		return system.Collection{}, nil
 	}
 	// Input conversion
 	switch value.(type) {
@@ -436,7 +439,8 @@ func ToQuantity(ctx *expr.Context, input system.Collection, args ...expr.Express
 	// Input reading
 	value, err := system.From(input[0])
 	if err != nil {
-		return nil, err
+		// not a System type (a complex element): not convertible
+		return system.Collection{}, nil
 	}
 	// Input conversion
 	switch value := value.(type) {
